@@ -171,6 +171,16 @@ def main():
             log(f'[{pid}] monitor {name}: {r["cases"]} cases, {len(r["failing"])} failing, {r["wall_s"]:.1f}s')
         known = load_known(pid)
         failing = [f for r in mon_results for f in r['failing']]
+        # functional properties: the model IS the reference (its theorems show it has the characteristics the property
+        # names), so a model/implementation difference in an observable the property prescribes is a failing input
+        ref = propcfg.REFERENCE.get(pid)
+        if ref:
+            for r in corr_broken:
+                for d in r['disagreements']:
+                    if propcfg.reference_failure(ref, d):
+                        failing.append({'signature': f'reference-mismatch:{r["name"]}',
+                                        'what': f'the implementation answers {d["impl"][:200]!r} where the reference semantics give {d["model"][:200]!r}',
+                                        'input': {'case': d['input'], 'line': d['line']}})
         new_failing, known_hit = [], {}
         for f in failing:
             k = next((e for e in known if e.get('status') == 'known' and e['signature'] == f.get('signature')), None)
